@@ -77,6 +77,18 @@ CLAIMED = {
     'C21': {'text': 'the four live-output wrappers verified around an abstract step with arbitrary (possibly repeating) clock '
                     'readings: trace callback exactly once per new record, spy callback once per line in order.',
             'note': "Trusted: core contracts as seen by the wrappers (proved by C01-C03/C23; the log summary of a step by composition of the _spy_on contract, C02's offer protocol and the core frame), deque/list contracts, functools.wraps; user code does not touch instrumentation fields." + ' The writer thread of ActiveObject (FIFO queue) is assumed.', 'technique': TECH},
+    'C17': {'category': 'translation_validation',
+            'text': 'two halves. (a) deductive, unbounded: the template handler (base_state_method + signal_callback + '
+                    'parent_callback) satisfies the handler table for every registry content and event kind; '
+                    'register_signal_callback / register_parent update exactly one entry and keep the registry well formed; '
+                    'Factory.create/catch/to_method/nest/start_at/to_code delegate with the named state (both overloads). '
+                    'C01-C03 hold for every handler satisfying that table, which carries "behaves like the hand-written '
+                    'chart". (b) translation validation, BOUNDED over table rows, unbounded over events: the real to_code is '
+                    'run on every row of a stated family, each returned text is parsed and verified by the same VC generator '
+                    'against its row. to_code is not proved for arbitrary tables.',
+            'note': 'Trusted: pyvc encoder, z3/cvc5, ast.parse, the emitter harness; callbacks are named module-level '
+                    'functions with distinct names; @spy_on on the emitted text is C18.',
+            'technique': TECH + '; per-instance translation validation of to_code output (bounded family of rows)'},
     'C23': {'text': 'state_name/state_fn post-conditions of start_at and dispatch on every host (plain core over the tree '
                     'theory, instrumented stacks around the core contract), of _spy_on, of the queries on spy-decorated '
                     'charts, and of current_state().',
